@@ -483,6 +483,7 @@ func (s *LinearState) FindCachedRules(ctx *Context, event Map) (map[string]*Rule
 				Log(WARN, ctx, "LinearState.FindCachedRules", "ruleId", id, "error", err)
 				continue
 			}
+			rule.Id = id
 			acc[id] = rule
 			s.cachedRules[id] = rule
 		}
